@@ -14,7 +14,7 @@ import (
 )
 
 type QueryOp struct {
-	Kind  string   `json:"kind"` // all | byid | like | in | count | type | ngt | xseq
+	Kind  string   `json:"kind"` // all | byid | like | in | count | type | ngt | xseq | proj
 	Str   string   `json:"str,omitempty"`
 	Num   float64  `json:"num,omitempty"`
 	IDs   []string `json:"ids,omitempty"`
@@ -42,6 +42,11 @@ func (q QueryOp) SQL() (string, map[string]any) {
 			quoted[i] = "'" + strings.ReplaceAll(id, "'", "''") + "'"
 		}
 		s = `SELECT ` + qCols + ` FROM $_keyspace WHERE id IN (` + strings.Join(quoted, ",") + `)`
+	case "proj":
+		// two projected properties that are SQL NULL (hence absent from the row) for documents
+		// that do not have them
+		s = `SELECT ` + qCols + `, (CASE WHEN json_valid(CAST(body AS TEXT)) THEN CAST(body AS TEXT)->'$.n' END) AS n,` +
+			` (CASE WHEN xattrs IS NOT NULL AND json_valid(CAST(xattrs AS TEXT)) THEN CAST(xattrs AS TEXT)->'$._sync.seq' END) AS s FROM $_keyspace`
 	case "count":
 		s = `SELECT COUNT(*) AS n FROM $_keyspace`
 	case "type":
@@ -64,6 +69,7 @@ type qrow struct {
 	ID   string
 	Body []byte
 	X    map[string]string
+	N, S *string // proj: projected body.n / xattrs._sync.seq as JSON text, nil = absent from the row
 }
 
 func (r qrow) String() string {
@@ -73,6 +79,12 @@ func (r qrow) String() string {
 	}
 	sort.Strings(names)
 	s := fmt.Sprintf("%q body=%q", r.ID, r.Body)
+	if r.N != nil {
+		s += " n:" + *r.N
+	}
+	if r.S != nil {
+		s += " s:" + *r.S
+	}
 	for _, k := range names {
 		s += " " + k + "=" + r.X[k]
 	}
@@ -134,7 +146,25 @@ func expectedQueryRows(r *Run, ci int, q QueryOp) []qrow {
 			}
 		}
 		if ok {
-			out = append(out, qrow{ID: k, Body: st.Body, X: st.X})
+			row := qrow{ID: k, Body: st.Body, X: st.X}
+			if q.Kind == "proj" {
+				if v, has := obj["n"]; valid && has {
+					t := string(mustJSON(v))
+					row.N = &t
+				}
+				if raw, has := st.X["_sync"]; has {
+					var sv any
+					if json.Unmarshal([]byte(raw), &sv) == nil {
+						if sm, isMap := sv.(map[string]any); isMap {
+							if v, has := sm["seq"]; has {
+								t := string(mustJSON(v))
+								row.S = &t
+							}
+						}
+					}
+				}
+			}
+			out = append(out, row)
 		}
 	}
 	sort.Slice(out, func(i, j int) bool { return out[i].ID < out[j].ID })
@@ -144,6 +174,7 @@ func expectedQueryRows(r *Run, ci int, q QueryOp) []qrow {
 func decodeQueryRow(raw []byte) (qrow, error) {
 	var m struct {
 		ID, Body, Xattrs *string
+		N, S             json.RawMessage
 	}
 	if err := json.Unmarshal(raw, &m); err != nil {
 		return qrow{}, fmt.Errorf("row %s is not JSON: %v", raw, err)
@@ -158,6 +189,14 @@ func decodeQueryRow(raw []byte) (qrow, error) {
 	row := qrow{ID: *m.ID, Body: body}
 	if body == nil {
 		row.Body = []byte{}
+	}
+	if m.N != nil {
+		t := string(m.N)
+		row.N = &t
+	}
+	if m.S != nil {
+		t := string(m.S)
+		row.S = &t
 	}
 	if m.Xattrs != nil && *m.Xattrs != "" {
 		xb, err := hex.DecodeString(*m.Xattrs)
@@ -181,6 +220,11 @@ func decodeQueryRow(raw []byte) (qrow, error) {
 func sameQRow(a, b qrow) bool {
 	if a.ID != b.ID || string(a.Body) != string(b.Body) || len(a.X) != len(b.X) {
 		return false
+	}
+	for _, pr := range [][2]*string{{a.N, b.N}, {a.S, b.S}} {
+		if (pr[0] == nil) != (pr[1] == nil) || (pr[0] != nil && !jsonEqual([]byte(*pr[0]), []byte(*pr[1]))) {
+			return false
+		}
 	}
 	for k, v := range a.X {
 		if b.X[k] != v {
@@ -334,7 +378,7 @@ func genQuery(rt *rapid.T, r *Run) (Op, bool) {
 	if len(w.Handles) > 1 {
 		op.H = rapid.IntRange(0, len(w.Handles)-1).Draw(rt, "q.h")
 	}
-	q := &QueryOp{Kind: pick(rt, []string{"all", "all", "byid", "like", "in", "count", "type", "ngt", "xseq"}, "q.kind")}
+	q := &QueryOp{Kind: pick(rt, []string{"all", "all", "byid", "like", "in", "count", "type", "ngt", "xseq", "proj", "proj"}, "q.kind")}
 	switch q.Kind {
 	case "byid":
 		q.Str = pick(rt, append([]string{"zz"}, w.Model.Keys(op.C)...), "q.id")
